@@ -1,5 +1,6 @@
 import LiteFSVerif.Driver.Util
 import LiteFSVerif.Driver.RWMutexD
+import LiteFSVerif.Driver.CodecD
 
 open LiteFSVerif LiteFSVerif.Driver
 
@@ -8,6 +9,7 @@ def main (args : List String) : IO UInt32 := do
   let stdout ← IO.getStdout
   match args with
   | ["rwmutex"] => loop stdin stdout RWMutexD.stepModel (RWMutex.Mutex.init 0); return 0
+  | ["codec"] => loop stdin stdout Codec.stepModel (); return 0
   | _ =>
     IO.eprintln "usage: modeld <suite>"
     return 2
